@@ -381,6 +381,9 @@ func (w *World) parse(op string) (event, error) {
 		if err != nil {
 			return event{}, err
 		}
+		if w.kind.Value > 0 {
+			sp.V = uint64(w.kind.Value) // the relative total tokens refer to this invoice's value
+		}
 		k := w.freshKey()
 		if k == 0 {
 			return event{op: op, class: "noop"}, nil
